@@ -229,6 +229,16 @@ int start(m_mod_t *mod, bool starting) {
 
     M_MOD_CTX(mod);
     int ret = manage_srcs(mod, c, ADD, false);
+    if (ret != 0) {
+        /* Roll back: module is not going to run, stop polling on the sources that were already added */
+        manage_srcs(mod, c, RM, false);
+        if (starting) {
+            m_bst_clear(mod->srcs[M_SRC_TYPE_PS]);
+            close(mod->pubsub_fd[1]);
+            mod->pubsub_fd[0] = -1;
+            mod->pubsub_fd[1] = -1;
+        }
+    }
     M_LOG_ASSERT(!ret, errors[starting], ret);
     
     mod->state = M_MOD_RUNNING;
